@@ -97,6 +97,14 @@ class C07(PropBase):
         group = gen.gen_recursive_group(rng, view, cfg, "vw0", 0)
         # keep scalar payload fields simple so that deep values stay cheap
         for d in group:
+            # frozen (hashable, "immutable") classes of the cycle, and payloads whose equal values can be
+            # written differently (Decimal exponents, equal instants at other offsets)
+            if d["d"] == "dataclass" and rng.random() < 0.3:
+                d.setdefault("flags", {})["frozen"] = True
+            if rng.random() < 0.3:
+                for f in d["fields"]:
+                    if f["n"] == "v":
+                        f["t"] = {"k": rng.choice(["dec", "dt"])}
             mod["decls"].append(d)
         # a recursive string-valued alias (cycle closed through a mapping and a union)
         alias_kind = rng.choice([None, "rec_first", "int_first"])
@@ -208,6 +216,20 @@ class C07(PropBase):
                 step["depth"] = rng.randint(1, 60)
             if "exhaust_scan" in sw and not exhaust and rng.random() < 0.25:
                 step["scan"] = True  # as above, for the marshal half (incl. the lazy resolution of the cycle proxies)
+            if not exhaust and kind == "self" and isinstance(v, dict) and "$chain" in v and rng.random() < 0.3:
+                # right after it: the same chain with every payload written differently but equal
+                # (==, same hash) - each level must still be converted from its own members
+                tw = copy.deepcopy(v)
+                changed = False
+                for lv in tw["$chain"]:
+                    for fk, fv in list(lv["f"].items()):
+                        t2 = hist.value_twin(rng, fv, numeric=False) if isinstance(fv, dict) else None
+                        if t2 is not None:
+                            lv["f"][fk] = t2
+                            changed = True
+                if changed:
+                    steps.append(step)
+                    step = {"op": "roundtrip", "t": t, "v": tw, "mod": "vw0", "vdepth": step["vdepth"], "twin": True}
             if exhaust:
                 step["exhaust"] = True
                 if kind == "self" and rng.random() < 0.5:
